@@ -25,6 +25,6 @@ PROP = dict(
                 "in the windows between pop and mark-running and before the stop flag; every task's execution count, thread, callback and every "
                 "status/cancel answer is checked against the recorded history. Held on the schedules observed."),
     level_note="trusts the history checker and gcc TSan/ASan; schedules are sampled; liveness is restated as bounded progress decided from snapshot()",
-    required_counters={"all": ["queries_before_start_window", "order_batches_checked", "verif_point_delays", "scenarios_workthread", "retire_race_bursts", "loop_stopped_gaps", "cancels_inside_parked_window", "parked_tasks_with_priority_below_range", "parked_tasks_with_priority_above_range",
+    required_counters={"all": ["queries_before_start_window", "order_batches_checked", "verif_point_delays", "scenarios_workthread", "retire_race_bursts", "loop_stopped_gaps", "cancels_inside_parked_window", "parked_tasks_with_priority_below_range", "parked_tasks_with_priority_above_range", "workthread_no_default_loop_explicit_task_loop", "workthread_default_and_task_loop",
                                "scenarios_threadpool", "quiesce_points", "cancel_result_0", "status_executing", "status_waiting"]},
 )
